@@ -2,15 +2,18 @@
 """Copies confirmed seeded changes into /verif/seeded/<id>/ and records which check detects each:
 applies the patch to /repo, runs the property's quick check, undoes the patch."""
 import json, os, re, shutil, subprocess, sys
-MUT='/tmp/mutout'; OUT='/verif/seeded'
+MUT=os.environ.get('MUT','/tmp/mutout'); OUT='/verif/seeded'
+CONFIRM=os.environ.get('CONFIRM','/tmp/confirm_all.txt')
+RENAME=dict(p.split('=') for p in os.environ.get('RENAME','a=a,b=b').split(','))  # round 2: a=c,b=d
+ROUND=os.environ.get('ROUND','1')
 confirm={}
-for l in open('/tmp/confirm_all.txt'):
+for l in open(CONFIRM):
     m=re.match(r'(C\d+)/([ab]) demo_without_change_exit=(\d+) demo_with_change_exit=(\d+) suite=(\S+) patch=(\S+)', l)
     if m: confirm[(m.group(1),m.group(2))]=dict(demo_without=int(m.group(3)), demo_with=int(m.group(4)), suite=m.group(5), patch=m.group(6))
 only=sys.argv[1:] 
-extra={('C02','a'):['C04'], ('C18','b'):['C09'], ('C08','a'):['C13'], ('C03','a'):['C05']}
+extra={('C02','a'):['C04'], ('C18','b'):['C09'], ('C08','a'):['C13'], ('C03','a'):['C05']} if ROUND=='1' else {}
 for (pid,x),c in sorted(confirm.items()):
-    sid=f'{pid}{x}'
+    sid=f'{pid}{RENAME[x]}'
     if only and sid not in only and pid not in only: continue
     src=f'{MUT}/{pid}/{x}'; dst=f'{OUT}/{sid}'
     os.makedirs(dst, exist_ok=True)
@@ -32,7 +35,7 @@ for (pid,x),c in sorted(confirm.items()):
         det[chk]=dict(exit=p.returncode, violation_keys=[k for k,_ in keys][:6], occurrences=sum(int(n) for _,n in keys))
         print(sid, chk, 'exit', p.returncode, [k for k,_ in keys][:2], flush=True)
     first=[l for l in notes.splitlines() if l.strip() and not l.startswith('#')]
-    meta=dict(id=sid, property=pid,
+    meta=dict(id=sid, property=pid, round=int(ROUND),
       source='written by an independent sub-agent that saw only the property text and a scratch worktree of /repo',
       needs_to_manifest=' '.join(first[:6])[:900],
       confirmed_by_me=dict(applies_to_repo_head=True, builds=True, existing_suite=c['suite'], demo_without_change_exit=c['demo_without'], demo_with_change_exit=c['demo_with'],
